@@ -914,6 +914,8 @@ pub fn run_worker(spec: &E2Spec, w: usize, n: usize) -> WorkerOut {
                 // value oracles of the borrowed harnesses belong to their own properties
                 continue;
             }
+            // (salsa's own assertion that a wait never closes a cycle is a protocol verdict too)
+            let sig = if spec.id == "C19" && what.contains("!self.depends_on(to_id, from_id)") { format!("protocol-assert:{}", sc.name) } else { sig };
             if spec.id == "C19" && !sig.starts_with("protocol") {
                 // value oracles of the borrowed harnesses belong to their own properties
                 continue;
@@ -974,7 +976,7 @@ pub fn replay_case(case: &serde_json::Value, proto_on: bool, only_prefix: Option
     let f = shuttle::replay(move || exec_with_proto(&sc2, proto_on), &schedule, u32::MAX);
     #[cfg(not(feature = "hooks"))]
     let f = shuttle::replay(move || scen_body(&sc2), &schedule, u32::MAX);
-    let v = VIOLS.lock().unwrap().drain(..).find(|v| (!proto_on || v.0.starts_with("protocol")) && only_prefix.is_none_or(|p| v.0.starts_with(p)));
+    let v = VIOLS.lock().unwrap().drain(..).find(|v| (!proto_on || v.0.starts_with("protocol") || v.1.contains("!self.depends_on(to_id, from_id)")) && only_prefix.is_none_or(|p| v.0.starts_with(p)));
     match (f, v) {
         (Some(Failure::Nondeterminism { .. }), _) | (Some(Failure::Hang { .. }), _) => None,
         (Some(f), _) => Some(Some(format!("{f:?}"))),
